@@ -110,6 +110,19 @@ def Img.updateOffsets : Img → PyRes Img
     | none => .error .other
     | some m => .ok (.mk s (o + m) a b p (ch.map (fun c => c.withOffset (c.offset - m))))
 
+/-! ### the `size` setter -/
+
+/-- `image.size = n`: `self._size = align(value, self.alignment)` - the same rounding as in the constructor -/
+def Img.setSize : Img → Nat → Img
+  | .mk _ o a b p ch, n => .mk (alignNat n a) o a b p ch
+
+/-- apply `f` to the node reached by a path of child indices (nothing happens when the path leaves the tree) -/
+def mapAt : List Nat → (Img → Img) → Img → Img
+  | [], f, i => f i
+  | k :: ks, f, i =>
+    match i with
+    | .mk s o a b p ch => .mk s o a b p (ch.mapIdx (fun j c => if j = k then mapAt ks f c else c))
+
 /-! ### `find_sub_image` (over the list of the children's names) -/
 
 /-- index of the first child called `name`; `none` stands for the `SPSDKValueError` -/
